@@ -6,7 +6,7 @@ From Moq.gen Require Import Sites.
 
 (* the three map iterations the model accounts for: Imports() (sorted afterwards),
    searchImport (at most one match under distinct qualifiers), resolveImportVarConflicts
-   (renames commute unless q and q++"MoqParam" are both qualifiers: OrderDependent) *)
+   (since the repair of D16 the range only collects the keys, which are sorted before the renames) *)
 Theorem C14_map_range_sites :
   map_range_sites =
   ["internal/registry/method_scope.go:resolveImportVarConflicts:imports";
